@@ -193,6 +193,35 @@ func evaluate(c *Case) *verdict {
 		return v
 	}
 
+	// ---- (iii) the race detector
+	for _, cfg := range c.Race {
+		if ev.PastDeadline() {
+			return v
+		}
+		res, err := staticcheck(binRace, dir, c.Tests, cfg)
+		if err != nil {
+			v.infra = err.Error()
+			return v
+		}
+		ev.Case(ev.Hash(mh, "race", cfgKey(cfg, hook)), graphOK && crossFacts > 0 && cfg.Procs >= 2,
+			"race_run", fmt.Sprintf("race_procs_%02d", cfg.Procs), testsClass)
+		ev.Count("race_run_wall_ms", int(res.wall.Milliseconds()))
+		if res.raced() {
+			v.msg = fmt.Sprintf("the race detector reported a data race in %s (-tests=%v), exit status %d:\n%s", cfg, c.Tests, res.exit, trunc(res.stderr, 6000))
+			reduce(v.msg, func(r *Case) { r.Race = []RunCfg{cfg} })
+			return v
+		}
+		if res.exit != 0 && res.exit != 1 {
+			v.infra = fmt.Sprintf("%s (race build): exit status %d\nstderr: %s", cfg, res.exit, trunc(res.stderr, 2000))
+			return v
+		}
+		if b := base["json"]; b != nil && cfg.Format == "json" && (res.stdout != b.stdout || res.exit != b.exit) {
+			v.msg = fmt.Sprintf("the -race build printed something else than the plain build on the same module (-tests=%v).\nA: %s -> exit %d\nB (race build): %s -> exit %d\n%s",
+				c.Tests, b.cfg, b.exit, cfg, res.exit, firstDiff(b.stdout, res.stdout))
+			reduce(v.msg, func(r *Case) { r.Det = []RunCfg{b.cfg}; r.Race = []RunCfg{cfg} })
+			return v
+		}
+	}
 	// ---- (ii) the problems of a package do not depend on the other packages named
 	single := map[string][]string{}
 	singleCfg := map[string]RunCfg{}
@@ -321,35 +350,6 @@ func evaluate(c *Case) *verdict {
 		}
 	}
 
-	// ---- (iii) the race detector
-	for _, cfg := range c.Race {
-		if ev.PastDeadline() {
-			return v
-		}
-		res, err := staticcheck(binRace, dir, c.Tests, cfg)
-		if err != nil {
-			v.infra = err.Error()
-			return v
-		}
-		ev.Case(ev.Hash(mh, "race", cfgKey(cfg, hook)), graphOK && crossFacts > 0 && cfg.Procs >= 2,
-			"race_run", fmt.Sprintf("race_procs_%02d", cfg.Procs), testsClass)
-		ev.Count("race_run_wall_ms", int(res.wall.Milliseconds()))
-		if res.raced() {
-			v.msg = fmt.Sprintf("the race detector reported a data race in %s (-tests=%v), exit status %d:\n%s", cfg, c.Tests, res.exit, trunc(res.stderr, 6000))
-			reduce(v.msg, func(r *Case) { r.Race = []RunCfg{cfg} })
-			return v
-		}
-		if res.exit != 0 && res.exit != 1 {
-			v.infra = fmt.Sprintf("%s (race build): exit status %d\nstderr: %s", cfg, res.exit, trunc(res.stderr, 2000))
-			return v
-		}
-		if b := base["json"]; b != nil && cfg.Format == "json" && (res.stdout != b.stdout || res.exit != b.exit) {
-			v.msg = fmt.Sprintf("the -race build printed something else than the plain build on the same module (-tests=%v).\nA: %s -> exit %d\nB (race build): %s -> exit %d\n%s",
-				c.Tests, b.cfg, b.exit, cfg, res.exit, firstDiff(b.stdout, res.stdout))
-			reduce(v.msg, func(r *Case) { r.Det = []RunCfg{b.cfg}; r.Race = []RunCfg{cfg} })
-			return v
-		}
-	}
 	return v
 }
 
@@ -420,7 +420,7 @@ func TestSchedules(t *testing.T) {
 	}
 	ev.Extra("scheduling_hook_H1_active", hookOn())
 	raceEvery := ev.EnvInt("C06_RACE_EVERY", 4, 2)
-	doRace := ev.Shard()%raceEvery == 0
+	doRace := raceEvery > 0 && ev.Shard()%raceEvery == 0 // C06_RACE_EVERY=0 switches the race runs off
 	var raceWarm sync.WaitGroup
 	if doRace {
 		// build the race binary's std-only cache while the other runs go on
@@ -429,7 +429,7 @@ func TestSchedules(t *testing.T) {
 	}
 	defer raceWarm.Wait()
 	maxPkgs := ev.EnvInt("C06_MAXPKGS", 12, 12)
-	nrep := ev.EnvInt("C06_REPEATS", 2, 30)
+	nrep := ev.EnvInt("C06_REPEATS", 1, 30)
 	nfmt := ev.EnvInt("C06_FMT_RUNS", 2, 6)
 	nsingles := ev.EnvInt("C06_SINGLES", 4, 6)
 	nsubsets := ev.EnvInt("C06_SUBSETS", 3, 0)
@@ -437,7 +437,7 @@ func TestSchedules(t *testing.T) {
 	ev.Check(t, "TestSchedules", func(rt *rapid.T) {
 		c := &Case{}
 		genModule(rt, c, maxPkgs)
-		c.Tests = chance(rt, "tests_flag", 70)
+		c.Tests = chance(rt, "tests_flag", 60)
 		genPlan(rt, c, nrep, nfmt, nsingles, nsubsets, allSubsets, doRace)
 		runCase(rt, t, c, &raceWarm)
 	})
